@@ -589,6 +589,13 @@ func VerifyLinkSignatureThesholds(layout Layout,
 					continue
 				}
 
+				// the claimed key id must be the id of the certificate's key,
+				// otherwise one certificate could be counted under several key ids
+				if cert.KeyID != signerKeyID {
+					stepErr = fmt.Errorf("key id '%s' does not belong to the signature's certificate", signerKeyID)
+					continue
+				}
+
 				// test certificate against the step's constraints to make sure it's a valid functionary
 				err = step.CheckCertConstraints(cert, layout.RootCAIDs(), rootCertPool, intermediateCertPool)
 				if err != nil {
